@@ -16,8 +16,14 @@ func zzC15PageParts(fmv, bodyv int, hasTitle bool) string {
 	if hasTitle {
 		fm += "title: t" + strconv.Itoa(fmv) + "\n"
 	}
+	// two more keys whose Go type changes from one version to the next
+	if fmv%2 == 0 {
+		fm += "kind: 2\nwant: 2\n"
+	} else {
+		fm += "kind: done\nwant: done\n"
+	}
 	fm += "layout: wrap\n---\n"
-	return fm + "<p>{{ title }} body" + strconv.Itoa(bodyv) + "</p><s style=\"color:red\" v-show=\"vis\" v-text=\"msg\"></s><template include=\"c.vuego\"></template>"
+	return fm + "<i v-if=\"kind == want\">match {{ kind }}</i><i v-else>mismatch</i><p>{{ title }} body" + strconv.Itoa(bodyv) + "</p><s style=\"color:red\" v-show=\"vis\" v-text=\"msg\"></s><template include=\"c.vuego\"></template>"
 }
 func zzC15Layout(v int) string {
 	return "---\nlk: l" + strconv.Itoa(v) + "\n---\n<main class=\"L" + strconv.Itoa(v) + "\"><span v-html=\"content\"></span>{{ lk }}</main>"
@@ -30,19 +36,22 @@ func zzC15Comp(v int) string { return "<em>comp" + strconv.Itoa(v) + "</em>" }
 func VerifC15_History() {
 	L := zzBound("L", 2, 3)
 	fsys := newZZFS(map[string]string{
-		"page.vuego":         zzC15Page(0),
+		"pages/page.vuego":   zzC15Page(0),
 		"layouts/wrap.vuego": zzC15Layout(0),
 		"c.vuego":            zzC15Comp(0),
+		// a layout of the same name next to the page: it wins while it exists
+		"pages/wrap.vuego": "<main class=\"REL\"><span v-html=\"content\"></span></main>",
 	})
-	fsys.mtime["page.vuego"] = 2
+	fsys.mtime["pages/page.vuego"] = 2
 	fsys.mtime["layouts/wrap.vuego"] = 2
 	fsys.mtime["c.vuego"] = 2
+	fsys.mtime["pages/wrap.vuego"] = 2
 	long := NewFS(fsys)
 	// the request data differs from render to render; the files decide the rest
 	vis := zzBool("vis")
 	render := func(t Template) (string, bool) {
 		w := &zzWriter{limit: 1 << 20}
-		err := t.New().Fill(map[string]any{"vis": vis, "msg": "M"}).RenderFile(contextBackground(), w, "page.vuego")
+		err := t.New().Fill(map[string]any{"vis": vis, "msg": "M"}).RenderFile(contextBackground(), w, "pages/page.vuego")
 		return string(w.got), err != nil
 	}
 	out0, failed0 := render(long) // warm the cache
@@ -51,10 +60,21 @@ func VerifC15_History() {
 	fmv, bodyv := 0, 0
 	for step := 0; step < L; step++ {
 		version++
-		switch zzChoice("op", 6) {
+		switch zzChoice("op", 7) {
+		case 6: // the layout file disappears, or comes back with a later modification time
+			name := "layouts/wrap.vuego"
+			if zzBool("relative") {
+				name = "pages/wrap.vuego"
+			}
+			if _, ok := fsys.files[name]; ok {
+				delete(fsys.files, name)
+			} else {
+				fsys.files[name] = zzC15Layout(version)
+				fsys.mtime[name] = int64(20 + version)
+			}
 		case 5: // nothing changes on disk
 		case 0, 1: // edit the page / the layout with an arbitrary new modification time
-			name := "page.vuego"
+			name := "pages/page.vuego"
 			// what the edit touches: everything, the front-matter only, the body only, or it removes the title
 			hasTitle := true
 			switch zzChoice("touch", 4) {
@@ -81,11 +101,11 @@ func VerifC15_History() {
 			fsys.files[name] = content
 			fsys.mtime[name] = newT
 		case 2: // delete the page
-			delete(fsys.files, "page.vuego")
+			delete(fsys.files, "pages/page.vuego")
 		case 3: // (re)create the page with a later modification time than ever used
 			fmv, bodyv = version, version
-			fsys.files["page.vuego"] = zzC15Page(version)
-			fsys.mtime["page.vuego"] = int64(10 + version)
+			fsys.files["pages/page.vuego"] = zzC15Page(version)
+			fsys.mtime["pages/page.vuego"] = int64(10 + version)
 		case 4: // edit the component (not cached)
 			fsys.files["c.vuego"] = zzC15Comp(version)
 		}
